@@ -288,10 +288,10 @@ def build3(m):
             ('start_line == lines.start_line + old(lines._index) + 1', 'C13'),
             ('len(line_buffer) == lines._index - old(lines._index)', 'C13'),
             # C11/C04: the setext switch is restored to what it was
-            ('Paragraph.parse_setext == old(Paragraph.parse_setext)', 'C11'),
+            ('Paragraph.parse_setext == old(Paragraph.parse_setext)', ['C11', 'C03', 'C04']),
         ],
         ensures_exc=['CURSOR_OK(lines)',
-                     ('Paragraph.parse_setext == old(Paragraph.parse_setext)', 'C11')],
+                     ('Paragraph.parse_setext == old(Paragraph.parse_setext)', ['C11', 'C03', 'C04'])],
         modifies=['lines._index', 'G:SCRATCH', 'G:FOOTNOTES', 'G:CodeFence._open_info',
                   'G:Paragraph.parse_setext',
                   'N:FileWrapper._index', 'N:FileWrapper.lines', 'N:FileWrapper.start_line',
@@ -816,7 +816,9 @@ def build14(m):
     m.ufunc('cp_group', [MCP, INT], STR)
     m.class_attrs[('ListItem', 'continuation_pattern')] = ('const', mk_obj('pattern', 'ListItem.continuation_pattern'))
     m.add(Contract('re:ListItem.continuation_pattern.match', [('s', STR)], returns=TOpt(MCP), trusted=True, pure=True,
-                   ensures=['is_none(result) == (not cp_matches(s))'],
+                   ensures=['is_none(result) == (not cp_matches(s))',
+                            # group 2 runs from the first non-blank character to the end of the matched line
+                            'implies(not is_none(result), s.endswith(cp_group(some(result), 2)))'],
                    note='A5 capture contract of ([ \\t]*)(\\S.*\\n|\\n): the pattern does NOT match every line '
                         '(a line that continues with non-ASCII whitespace after the blanks has no match)'))
     m.methods[('MatchCP', 'group')] = 're:MatchCP.group'
@@ -829,7 +831,15 @@ def build14(m):
     c.note = 'verified against the capture contract re:ListItem.continuation_pattern.match'
     c.prop = ['C01']
     # LINES_NL: a continuation line handed to the nested tokenization ends with its terminator
-    c.ensures = list(c.ensures) + ["implies(not is_none(result), some(result).endswith('\\n'))"]
+    c.ensures = list(c.ensures) + ["implies(not is_none(result), some(result).endswith('\\n'))",
+                                   # C04: only the indentation is rewritten (tabs to columns, the item's offset removed);
+                                   # the text of the line from its first non-blank character on is kept verbatim
+                                   ("implies(not is_none(result), line.endswith(g_g2) and some(result).endswith(g_g2))", ['C04', 'C03']),
+                                   ("implies(not is_none(result), len(g_g2) >= 1)", ['C04', 'C03'])]
+    c.ghost_init = {'g_g2': (STR, "''")}
+    c.ghost_after = {'match_obj = cls.continuation_pattern.match(line)': [
+        ('g_g2', "cp_group(some(match_obj), 2) if not is_none(match_obj) else ''")]}
+    c.prop = ['C01', 'C04', 'C03']
 
 
 def build15(m):
